@@ -2859,3 +2859,176 @@ Example C14_parse_unparse_nonvacuous :
   List.length (up_authorizer a) = 92%nat /\
   List.length (au_body a) = 4%nat.
 Proof. vm_compute. repeat split. Qed.
+
+Section Dates.
+Local Open Scope Z_scope.
+(* ================================================================== *)
+(* dates: parse_rfc3339 (fmt_rfc3339 d) = Some d                        *)
+(* ================================================================== *)
+
+(* the era-independent part of civil_from_days, as a checkable fact about one
+   400-year era (146097 days) *)
+Definition era_check (doe : Z) : bool :=
+  let yoe := (doe - doe / 1460 + doe / 36524 - doe / 146096) / 365 in
+  let doy := doe - (365 * yoe + yoe / 4 - yoe / 100) in
+  let mp := (5 * doy + 2) / 153 in
+  let d := doy - (153 * mp + 2) / 5 + 1 in
+  let m := if mp <? 10 then mp + 3 else mp - 9 in
+  let yadj := if m <=? 2 then yoe + 1 else yoe in
+  let mp' := if m >? 2 then m - 3 else m + 9 in
+  (0 <=? yoe) && (yoe <=? 399) && (1 <=? m) && (m <=? 12) && (1 <=? d)
+  && (d <=? days_in_month yadj m)
+  && (mp' =? mp) && ((153 * mp' + 2) / 5 + d - 1 =? doy)
+  && (yoe * 365 + yoe / 4 - yoe / 100 + doy =? doe).
+
+Definition era_check' (doe : Z) : bool := if doe <? 146097 then era_check doe else true.
+(* all of [lo, lo + 2^k) by binary splitting *)
+Fixpoint range_check (k : nat) (lo : Z) : bool :=
+  match k with
+  | O => era_check' lo
+  | S k' => range_check k' lo && range_check k' (lo + 2 ^ Z.of_nat k')
+  end.
+Lemma range_check_ok : forall k lo, range_check k lo = true ->
+  forall i, lo <= i < lo + 2 ^ Z.of_nat k -> era_check' i = true.
+Proof.
+  induction k as [|k IH]; intros lo H i Hi.
+  - cbn in Hi. assert (i = lo) by lia. subst i. exact H.
+  - cbn [range_check] in H. apply andb_true_iff in H as [H1 H2].
+    rewrite Nat2Z.inj_succ, Z.pow_succ_r in Hi by lia.
+    destruct (Z_lt_le_dec i (lo + 2 ^ Z.of_nat k)) as [Hlt|Hge].
+    + apply (IH lo H1). lia.
+    + apply (IH _ H2). lia.
+Qed.
+Lemma era_check_all : range_check 18 0 = true.
+Proof. vm_compute. reflexivity. Qed.
+
+Lemma era_check_ok doe : 0 <= doe < 146097 -> era_check doe = true.
+Proof.
+  intros H. pose proof (range_check_ok 18 0 era_check_all doe) as Hc.
+  assert (Hr : 0 <= doe < 0 + 2 ^ Z.of_nat 18) by (change (2 ^ Z.of_nat 18) with 262144; lia).
+  specialize (Hc Hr). unfold era_check' in Hc.
+  destruct (doe <? 146097) eqn:E; [exact Hc|]. apply Z.ltb_ge in E. lia.
+Qed.
+
+Lemma is_leap_shift a e : is_leap (a + e * 400) = is_leap a.
+Proof.
+  unfold is_leap.
+  replace ((a + e * 400) mod 4) with (a mod 4) by (rewrite <- (Z.mod_add a (e * 100) 4) by lia; f_equal; lia).
+  replace ((a + e * 400) mod 100) with (a mod 100) by (rewrite <- (Z.mod_add a (e * 4) 100) by lia; f_equal; lia).
+  replace ((a + e * 400) mod 400) with (a mod 400) by (rewrite <- (Z.mod_add a e 400) by lia; f_equal; lia).
+  reflexivity.
+Qed.
+
+Lemma days_in_month_shift a e m : days_in_month (a + e * 400) m = days_in_month a m.
+Proof. unfold days_in_month. rewrite is_leap_shift. reflexivity. Qed.
+
+Theorem civil_roundtrip z0 :
+  let '(y, m, d) := civil_from_days z0 in
+  1 <= m <= 12 /\ 1 <= d <= days_in_month y m /\ days_from_civil y m d = z0.
+Proof.
+  unfold civil_from_days.
+  set (z := z0 + 719468). set (era := z / 146097). set (doe := z - era * 146097).
+  assert (Hdoe : 0 <= doe < 146097) by (unfold doe, era; lia).
+  pose proof (era_check_ok doe Hdoe) as Hc. unfold era_check in Hc.
+  set (yoe := (doe - doe / 1460 + doe / 36524 - doe / 146096) / 365) in *.
+  set (doy := doe - (365 * yoe + yoe / 4 - yoe / 100)) in *.
+  set (mp := (5 * doy + 2) / 153) in *.
+  set (d := doy - (153 * mp + 2) / 5 + 1) in *.
+  set (m := if mp <? 10 then mp + 3 else mp - 9) in *.
+  cbv zeta in Hc.
+  repeat match goal with Hx : (_ && _) = true |- _ => apply andb_true_iff in Hx; destruct Hx end.
+  repeat match goal with Hx : (_ <=? _) = true |- _ => apply Z.leb_le in Hx end.
+  repeat match goal with Hx : (_ =? _) = true |- _ => apply Z.eqb_eq in Hx end.
+  set (yadj := if m <=? 2 then yoe + 1 else yoe) in *.
+  assert (Hy : (if m <=? 2 then yoe + era * 400 + 1 else yoe + era * 400) = yadj + era * 400).
+  { unfold yadj. destruct (m <=? 2); lia. }
+  rewrite Hy. rewrite days_in_month_shift.
+  split; [lia|]. split; [lia|].
+  unfold days_from_civil.
+  assert (Hy' : (if m <=? 2 then yadj + era * 400 - 1 else yadj + era * 400) = yoe + era * 400).
+  { unfold yadj. destruct (m <=? 2); lia. }
+  rewrite Hy'.
+  assert (Hera : (yoe + era * 400) / 400 = era).
+  { rewrite Z.div_add by lia. rewrite Z.div_small by lia. lia. }
+  rewrite Hera.
+  replace (yoe + era * 400 - era * 400) with yoe by lia.
+  set (mp' := if m >? 2 then m - 3 else m + 9) in *.
+  unfold doe, z in *. lia.
+Qed.
+
+Lemma days_from_civil_upper y m d :
+  10000 <= y -> 1 <= m <= 12 -> 1 <= d -> 2932897 <= days_from_civil y m d.
+Proof.
+  intros Hy Hm Hd. unfold days_from_civil.
+  destruct (m <=? 2) eqn:E1; destruct (m >? 2) eqn:E2; lia.
+Qed.
+Lemma days_from_civil_lower y m d :
+  y <= 1969 -> 1 <= m <= 12 -> d <= 31 -> days_from_civil y m d < 0.
+Proof.
+  intros Hy Hm Hd. unfold days_from_civil.
+  destruct (m <=? 2) eqn:E1; destruct (m >? 2) eqn:E2; lia.
+Qed.
+Lemma days_in_month_le y m : days_in_month y m <= 31.
+Proof. unfold days_in_month. destruct (m =? 2); [destruct (is_leap y); lia|]. destruct (_ || _); lia. Qed.
+
+Lemma pad2_spec z : 0 <= z <= 99 ->
+  exists a b, pad2 z = [a; b] /\ is_digit a = true /\ is_digit b = true /\ num2 a b = z.
+Proof.
+  intros Hz. unfold pad2. eexists; eexists; split; [reflexivity|].
+  unfold is_digit, num2, dig. repeat split; lia.
+Qed.
+Lemma pad4_spec z : 0 <= z <= 9999 ->
+  exists a b c d, pad4 z = [a; b; c; d] /\ is_digit a = true /\ is_digit b = true /\
+                  is_digit c = true /\ is_digit d = true /\ num2 a b * 100 + num2 c d = z.
+Proof.
+  intros Hz. unfold pad4. assert (H : (Z.to_N z <? 10000)%N = true) by lia. rewrite H.
+  eexists; eexists; eexists; eexists; split; [reflexivity|].
+  unfold is_digit, num2, dig. repeat split; lia.
+Qed.
+
+(* the formatter and the parser are inverse on 1970-01-01T00:00:00Z .. 9999-12-31T23:59:59Z *)
+Theorem rfc3339_roundtrip d :
+  0 <= d < 253402300800 -> parse_rfc3339 (fmt_rfc3339 d) = Some d.
+Proof.
+  intros Hd. unfold fmt_rfc3339.
+  set (days := d / 86400). set (rem := d mod 86400).
+  assert (Hdays : 0 <= days < 2932897) by (unfold days; lia).
+  assert (Hrem : 0 <= rem < 86400) by (unfold rem; lia).
+  pose proof (civil_roundtrip days) as Hc.
+  destruct (civil_from_days days) as [[y m] dd]. destruct Hc as (Hm & Hdd & Hback).
+  pose proof (days_in_month_le y m) as Hdim.
+  assert (Hy : 1970 <= y <= 9999).
+  { split.
+    - destruct (Z_lt_le_dec y 1970) as [Hlt|]; [|assumption].
+      pose proof (days_from_civil_lower y m dd ltac:(lia) Hm ltac:(lia)). lia.
+    - destruct (Z_lt_le_dec 9999 y) as [Hlt|]; [|assumption].
+      pose proof (days_from_civil_upper y m dd ltac:(lia) Hm ltac:(lia)). lia. }
+  assert (Hyneg : (y <? 0) = false) by lia. rewrite Hyneg.
+  destruct (pad4_spec y ltac:(lia)) as (y1 & y2 & y3 & y4 & Ey & Dy1 & Dy2 & Dy3 & Dy4 & Vy).
+  destruct (pad2_spec m ltac:(lia)) as (m1 & m2 & Em & Dm1 & Dm2 & Vm).
+  destruct (pad2_spec dd ltac:(lia)) as (d1 & d2 & Ed & Dd1 & Dd2 & Vd).
+  destruct (pad2_spec (rem / 3600) ltac:(lia)) as (h1 & h2 & Eh & Dh1 & Dh2 & Vh).
+  destruct (pad2_spec ((rem / 60) mod 60) ltac:(lia)) as (i1 & i2 & Ei & Di1 & Di2 & Vi).
+  destruct (pad2_spec (rem mod 60) ltac:(lia)) as (s1 & s2 & Es & Ds1 & Ds2 & Vs).
+  rewrite Ey, Em, Ed, Eh, Ei, Es. cbn [app].
+  unfold parse_rfc3339.
+  rewrite Dy1, Dy2, Dy3, Dy4, Dm1, Dm2, Dd1, Dd2, Dh1, Dh2, Di1, Di2, Ds1, Ds2. cbn [andb].
+  rewrite Vy, Vm, Vd, Vh, Vi, Vs.
+  assert (Hvalid : ((1 <=? m) && (m <=? 12) && (1 <=? dd) && (dd <=? days_in_month y m)
+                    && (rem / 3600 <=? 23) && ((rem / 60) mod 60 <=? 59) && (rem mod 60 <=? 59)) = true).
+  { repeat (apply andb_true_iff; split); apply Z.leb_le; lia. }
+  rewrite Hvalid, Hback. f_equal. unfold days, rem. lia.
+Qed.
+
+Example rfc3339_samples :
+  fmt_rfc3339 0 = bs "1970-01-01T00:00:00Z" /\
+  fmt_rfc3339 951782400 = bs "2000-02-29T00:00:00Z" /\
+  fmt_rfc3339 253402300799 = bs "9999-12-31T23:59:59Z" /\
+  fmt_rfc3339 (-1) = bs "1969-12-31T23:59:59Z" /\
+  parse_rfc3339 (bs "2020-01-01T00:00:00+24:60") = Some 1577746800 /\
+  parse_rfc3339 (bs "2020-02-30T00:00:00Z") = None /\
+  parse_rfc3339 (bs "2020-01-01T00:00:00") = None /\
+  parse_rfc3339 (bs "2020-01-01T00:00:00.123456789012345Z") = Some 1577836800 /\
+  parse_rfc3339 (bs "0000-01-01T00:00:00Z") = Some (-62167219200).
+Proof. vm_compute. repeat split. Qed.
+End Dates.
